@@ -117,6 +117,8 @@ def parse_generic(parser, bname, elts, P):
         return ('key', elts[0].id)
     if bname == 'KeySeq' and len(elts) == 1 and isinstance(elts[0], ast.Name):
         return ('kseq', elts[0].id)
+    if bname == 'PairSeq' and len(elts) == 1 and isinstance(elts[0], ast.Name):   # zipseqs: tuple[tuple[str, K], ...]
+        return ('kseq', elts[0].id, 'pairs')
     if bname in ('dict', 'Dict', 'Mapping') and len(elts) == 2:
         from . import ufmaps   # ufmaps: key-valued maps, dict[K, set[K]]
         r = ufmaps.parse_generic(bname, elts, P)
@@ -166,6 +168,9 @@ def fresh(P, typ, name):
         af = z3.Function(name + '#at', z3.IntSort(), s)
         n = z3.Int(name + '#len')
         P.assume(n >= 0, fact=True)
+        if len(typ) > 2:   # zipseqs
+            from . import zipseqs
+            return zipseqs.SymPairSeq(lambda i: af(i), n, typ[1], name)
         return SymKeySeq(lambda i: af(i), n, typ[1], name)
     if k == 'relmap':   # ufmaps
         from . import ufmaps
@@ -504,7 +509,7 @@ def _forall(P, mk, wrap, fn, what):
 # -------------------------------------------------------------- loop rule
 
 def is_symbolic_iterable(v):
-    return isinstance(v, SYM) or type(v).__name__ == 'SymItems'   # absnodes: map.items()
+    return isinstance(v, SYM) or type(v).__name__ in ('SymItems', 'SymZip')   # absnodes: map.items(); zipseqs: zip(seq, seq)
 
 
 def _for_loops(fn_node):
@@ -689,6 +694,13 @@ def loop_rule(P, st, fr, it):
             raise Unsupported('loop rule: items() needs the target `k, v`')
         vname = targets[1].id
         targets = targets[:1]
+    from . import zipseqs   # zipseqs: `for x, y in zip(seq, seq)` / `for name, v in <pair sequence>`
+    multi = others = None
+    if isinstance(it, zipseqs.MULTI):
+        multi = it
+        first, others = zipseqs.split_targets(multi, targets)
+        targets = [first]
+        it = zipseqs.carrier(multi)
     if len(targets) != 1 or not isinstance(targets[0], ast.Name):
         raise Unsupported('loop rule: the loop target must be a single name')
     tname = targets[0].id
@@ -745,6 +757,8 @@ def loop_rule(P, st, fr, it):
         for k, cond in clauses(done).items():
             P.assume(P.truthy(cond), fact=True)
         fr.locals[tname] = key
+        if multi is not None:   # zipseqs
+            zipseqs.bind(P, fr, multi, others, done)
         if items_map is not None:   # absnodes
             from . import absnodes
             fr.locals[vname] = absnodes.wrap_value(items_map, items_map.value(key.term))
@@ -773,6 +787,9 @@ def loop_rule(P, st, fr, it):
         P.assume(P.truthy(cond), fact=True)
     if items_map is not None:   # absnodes
         fr.locals.pop(vname, None)
+    if multi is not None:   # zipseqs: the other targets are unbound after the loop (conservative, like the first)
+        for o in others:
+            fr.locals.pop(o, None)
     if not was_bound:
         fr.locals.pop(tname, None)
     else:
@@ -823,6 +840,8 @@ def concretize_entry(cz, typ, name):
         af = z3.Function(name + '#at', z3.IntSort(), s)
         n = m.eval(z3.Int(name + '#len'), model_completion=True).as_long()
         n = max(0, min(n, 8))
+        if len(typ) > 2:   # zipseqs
+            return {'$kseq': typ[1], 'pairs': True, 'items': [str(m.eval(af(i), model_completion=True)) for i in range(n)]}
         return {'$kseq': typ[1], 'items': [str(m.eval(af(i), model_completion=True)) for i in range(n)]}
     raise InterpError(f'concretize_entry {typ}')
 
